@@ -65,6 +65,14 @@ class OutArray(object):
     def sym_augstore(self, interp, k, op, v, node):
         if op != 'Add':
             raise CheckerError('line %d: only += is supported on output arrays' % node.lineno)
+        if isinstance(k, slice) and isinstance(v, RowComb):
+            # numpy broadcasting rule for the slice assignment: lengths must agree
+            lo = k.start if k.start is not None else 0
+            hi = k.stop if k.stop is not None else self.length
+            ln = (hi if isinstance(hi, P) else P.const(hi)) - (lo if isinstance(lo, P) else P.const(lo))
+            c = pysym.compare('==', ln, v.n)
+            if not interp.truth(c):
+                raise pysym.SymRaise('ValueError', ('operands could not be broadcast together: slice of length %s, value of length %s' % (ln, v.n),), node)
         self.stores.append((k, v, '+=', list(interp.path.conds), node.lineno, tuple(g.var for g in interp.generic)))
 
     def sym_load(self, interp, k, node):
@@ -77,6 +85,49 @@ class OutArray(object):
 
     def __repr__(self):
         return '<out %s[%s] %d stores>' % (self.name, self.length, len(self.stores))
+
+
+class FilledMat(object):
+    """a 2-D work array (dofs x size) allocated by np.zeros and filled by a kernel contract (fg): its rows are
+    opaque vectors  row_d(fill)"""
+    def __init__(self, name, shape):
+        self.name = name
+        self.shape = tuple(shape)
+        self.fill = None       # set by the contract that writes it
+        self.nfills = 0
+
+    def sym_getattr(self, interp, name):
+        if name == 'shape':
+            return self.shape
+        raise CheckerError('attribute %s of work matrix' % name)
+
+    def sym_rdot(self, interp, left):
+        """left (1 x dofs object array) . self  ->  linear combination of the rows"""
+        import numpy as np
+        if self.fill is None:
+            raise CheckerError('work matrix used before being filled')
+        left = np.asarray(left, dtype=object)
+        if left.ndim != 2 or left.shape[0] != 1 or left.shape[1] != self.shape[0]:
+            raise pysym.SymRaise('ValueError', ('shapes %s and %s not aligned' % (left.shape, self.shape),))
+        return RowComb([(left[0, d], (d, self.fill)) for d in range(left.shape[1])], self.shape[1])
+
+
+class RowComb(object):
+    """sum_d coef_d * row_d(fill): a vector of length n"""
+    def __init__(self, terms, n):
+        self.terms = terms
+        self.n = n
+
+    def sym_getattr(self, interp, name):
+        if name == 'ravel':
+            return lambda: self
+        if name == 'shape':
+            return (1, self.n)
+        raise CheckerError('attribute %s of a row combination' % name)
+
+    def __mul__(self, k):
+        return RowComb([(c * k, r) for c, r in self.terms], self.n)
+    __rmul__ = __mul__
 
 
 class InArray(object):
@@ -111,6 +162,8 @@ class InArray(object):
     def sym_getattr(self, interp, name):
         if name == 'shape' and self.shape is not None:
             return self.shape
+        if name == 'ndim' and self.shape is not None:
+            return len(self.shape)
         raise CheckerError('attribute %s of input array %s' % (name, self.name))
 
     def __repr__(self):
